@@ -99,6 +99,11 @@ def specs_for(ctx):
         prefixy = rng.random() < 0.35        # names as they are, from a pool whose members are prefixes of one another
         w = random_world(rng, n_modules=rng.randint(6, 30), n_imports=rng.randint(0, 30),
                          pool=PREFIX_POOL if prefixy else None)
+        if rng.random() < 0.35:
+            # a second (and third) top-level package next to the root - what an architecture looks like when external
+            # libraries are included; alias maps then mention several packages in any insertion order
+            extra = [("os",), ("os", "path"), ("xlib",), ("xlib", "sub"), ("xlib", "sub", "deep")]
+            w = World(list(w.modules) + extra[:rng.choice([2, 5])], w.imports)
         items = []
         rnd = "ident" if prefixy else rng.choice(["ident", "clean", "adv", "adv2", "adv3", "adv4", "adv4"])
         for k in range(4):
